@@ -22,12 +22,22 @@ def validate(ctx, module, cfg, traces, what, jvms=None, env=None, dfs=False, mus
         return ([], 0, []) if extended else ([], 0)
     jvms = jvms or max(1, min(ctx.workers, (len(traces) + min_batch - 1) // min_batch))
     per = (len(traces) + jvms - 1) // jvms
-    batches = [(k, traces[k:k + per]) for k in range(0, len(traces), per)]
+    # a batch is also capped by its serialised size: TLC's Json module builds the whole file as one value on the heap
+    texts = [json.dumps(t, separators=(",", ":")) for t in traces]
+    cap = int(os.environ.get("VERIF_BATCH_BYTES", "24000000"))
+    batches, k = [], 0
+    while k < len(traces):
+        size, j = 0, k
+        while j < len(traces) and j - k < per and (j == k or size + len(texts[j]) <= cap):
+            size += len(texts[j])
+            j += 1
+        batches.append((k, traces[k:j]))
+        k = j
     jobs = []
     for off, b in batches:
         path = os.path.join(ctx.scratch, "traces_%s_%d.json" % (module, off))
         with open(path, "w") as fh:
-            json.dump(b, fh, separators=(",", ":"))
+            fh.write("[" + ",".join(texts[off:off + len(b)]) + "]")
         jobs.append((off, b, path))
 
     def run(job):
